@@ -390,5 +390,6 @@ RULES = [
     # "a correct result or WOULDBLOCK": the decision tables of the non-blocking iteration / dequeue entry points
     ("C17.result", lambda c, r: pat.shared(__import__("sa.rules.c11", fromlist=["x"]).rule_iter, "C17.result", lambda x: "nonblocking" in x["instance"] or x["status"] != "pass")(c, r)),
     ("C17.result", lambda c, r: pat.shared(__import__("sa.rules.c10", fromlist=["x"]).rule_iter, "C17.result", lambda x: "nonblocking" in x["instance"] or x["status"] != "pass")(c, r)),
+    ("C17.filter", lambda c, r: __import__("sa.rules.lfht", fromlist=["x"]).rule_filter(c, r, "C17.filter")),   # a removed node handed back as a duplicate makes add_replace spin on it
 ]
 FLOORS = {}
